@@ -25,9 +25,15 @@ def expected_block(ops):
 
 
 def contains_block(tr, blk):
+    """the block occurs contiguously; when it carries no stop (system_stop answered something
+    else than the acknowledgement) no stop may follow it either"""
     tr = [tuple(e[:2]) + ((tuple(e[2]),) if len(e) > 2 and e[2] is not None else ()) for e in tr]
     blk = [tuple(e[:2]) + ((tuple(e[2]),) if len(e) > 2 else ()) for e in blk]
-    return any(tr[i:i + len(blk)] == blk for i in range(len(tr) - len(blk) + 1))
+    has_stop = blk[-1] == ('stop',)
+    for i in range(len(tr) - len(blk) + 1):
+        if tr[i:i + len(blk)] == blk and (has_stop or tr[i + len(blk):i + len(blk) + 1] != [('stop',)]):
+            return True
+    return False
 
 
 def gen_ops_stop(rng):
